@@ -1,7 +1,13 @@
 
+val negb : bool -> bool
+
 type nat =
 | O
 | S of nat
+
+type ('a, 'b) sum =
+| Inl of 'a
+| Inr of 'b
 
 val fst : ('a1 * 'a2) -> 'a1
 
@@ -33,6 +39,13 @@ type z =
 | Z0
 | Zpos of positive
 | Zneg of positive
+
+module Nat :
+ sig
+  val leb : nat -> nat -> bool
+
+  val ltb : nat -> nat -> bool
+ end
 
 module Pos :
  sig
@@ -156,13 +169,35 @@ module Z :
   val modulo : z -> z -> z
  end
 
+val tl : 'a1 list -> 'a1 list
+
+val nth_error : 'a1 list -> nat -> 'a1 option
+
+val rev : 'a1 list -> 'a1 list
+
 val concat : 'a1 list list -> 'a1 list
 
 val map : ('a1 -> 'a2) -> 'a1 list -> 'a2 list
 
+val existsb : ('a1 -> bool) -> 'a1 list -> bool
+
 val forallb : ('a1 -> bool) -> 'a1 list -> bool
 
+val firstn : nat -> 'a1 list -> 'a1 list
+
+val skipn : nat -> 'a1 list -> 'a1 list
+
 type byte = n
+
+val list_eqb : n list -> n list -> bool
+
+val has_prefix : n list -> n list -> bool
+
+val index_of : n list -> n list -> nat option
+
+val contains : n list -> n list -> bool
+
+val index_byte : n -> n list -> nat option
 
 val escape_leader : n
 
@@ -171,6 +206,64 @@ val escape_base_json : (n list * n list) list
 val escape_all_chars : n list
 
 val escape_all_first_code : n
+
+val osc52_prefix : n list
+
+val osc52_terms : n list
+
+val osc52_kind_c : n
+
+val osc52_kind_p : n
+
+val osc52_sep : n
+
+val osc52_limit : n
+
+val osc52_hdr_skip : n
+
+val osc52_kind_len : n
+
+val osc52_b64_ranges : (n * n) list
+
+val drag_paste_probe : n list
+
+val drag_paste_begin : n list
+
+val drag_paste_end : n list
+
+val drag_paste_minlen : n
+
+val drag_quote : n
+
+val drag_slash : n
+
+val drag_space : n
+
+val drag_min_len : n
+
+val trace_enable_marker : n list
+
+val trace_disable_marker : n list
+
+val show_cursor_seq : n list
+
+val hide_cursor_seq : n list
+
+val drag_default_cmd : n list
+
+val drag_dir_flag : n list
+
+val drag_cmd_end : n list
+
+val drag_interrupt_byte : n
+
+val skip_trim_cutset : n list
+
+val skip_echo_repl : n list
+
+val vt100_esc : n
+
+val vt100_end_ranges : (n * n) list
 
 val leader : byte
 
@@ -225,3 +318,194 @@ val escape_all_pairs : n list -> n -> n list list list
 val builtin_json : bool -> n list list list
 
 val builtin_table : bool -> table
+
+type chunk = n list
+
+type path = n list
+
+type kind =
+| KDir
+| KRegular
+| KOther
+
+val in_ranges : (n * n) list -> n -> bool
+
+val index_any : n list -> n list -> nat option
+
+val replace_all_f : nat -> n list -> n list -> n list -> n list
+
+val replace_all : n list -> n list -> n list -> n list
+
+val trim_vt100_f : bool -> n list -> n list
+
+val trim_vt100 : n list -> n list
+
+val trim_right : n list -> n list -> n list
+
+val osc52_bad_b64 : n list -> bool
+
+val osc52_header : nat -> n list -> n list option
+
+val osc52_loop :
+  nat -> n list option -> n list -> n list list -> n list option * n list list
+
+val detect_osc52 : n list option -> n list -> n list option * n list list
+
+type dres = { d_files : (path list * bool) option; d_ignore : bool;
+              d_win : bool }
+
+val strip_paste : n list -> n list option
+
+val next_linux_path : n list -> (path * nat) option
+
+val file_path_ok : (path -> kind option) -> path -> bool option
+
+val linux_loop :
+  (path -> kind option) -> nat -> n list -> path list -> bool -> (path
+  list * bool) option
+
+val last_is : n -> n list -> bool
+
+val detect_drag_files_on_linux :
+  (path -> kind option) -> n list -> (path list * bool) option
+
+val detect_drag_linux : (path -> kind option) -> n list -> dres
+
+type opts = { o_drag : bool; o_trace : bool; o_zmodem : bool; o_osc52 : 
+              bool; o_cmd : n list; o_cmd_not_trz : bool }
+
+type dphase =
+| DWait
+| DInterrupt
+| DCmd
+
+type hphase =
+| HChoosing
+| HOwning
+
+type haction =
+| HIo of n list * n list
+| HTakeDrag
+| HRefuse
+| HFailEarly
+| HAccept
+| HDone
+| HError
+| HStop
+| HBackground
+
+type obs =
+| ToTerm of n list
+| ToServer of n list
+| Clip of n list
+
+type ('dstate, 'zstate) state = { transfer : bool; zmodem : 'zstate option;
+                                  prompt : bool; prompts : bool;
+                                  trace_on : bool; interrupting : bool;
+                                  skip_cmd : bool; cur_cmd : n list option;
+                                  osc : n list option; detect_on : bool;
+                                  dragging : bool; drag_has_dir : bool;
+                                  drag_files : path list option;
+                                  held : n list option; det : 'dstate;
+                                  drag_procs : dphase list;
+                                  handlers : hphase list }
+
+val init : 'a1 -> ('a1, 'a2) state
+
+val set_transfer : bool -> ('a1, 'a2) state -> ('a1, 'a2) state
+
+val set_zmodem : 'a2 option -> ('a1, 'a2) state -> ('a1, 'a2) state
+
+val set_prompt : bool -> ('a1, 'a2) state -> ('a1, 'a2) state
+
+val set_prompts : bool -> ('a1, 'a2) state -> ('a1, 'a2) state
+
+val set_trace_on : bool -> ('a1, 'a2) state -> ('a1, 'a2) state
+
+val set_interrupting : bool -> ('a1, 'a2) state -> ('a1, 'a2) state
+
+val set_skip_cmd : bool -> ('a1, 'a2) state -> ('a1, 'a2) state
+
+val set_cur_cmd : n list option -> ('a1, 'a2) state -> ('a1, 'a2) state
+
+val set_osc : n list option -> ('a1, 'a2) state -> ('a1, 'a2) state
+
+val set_detect_on : bool -> ('a1, 'a2) state -> ('a1, 'a2) state
+
+val set_drag :
+  bool -> bool -> path list option -> ('a1, 'a2) state -> ('a1, 'a2) state
+
+val set_held : n list option -> ('a1, 'a2) state -> ('a1, 'a2) state
+
+val set_det : 'a1 -> ('a1, 'a2) state -> ('a1, 'a2) state
+
+val set_drag_procs : dphase list -> ('a1, 'a2) state -> ('a1, 'a2) state
+
+val set_handlers : hphase list -> ('a1, 'a2) state -> ('a1, 'a2) state
+
+val reset_drag : ('a1, 'a2) state -> ('a1, 'a2) state
+
+val add_drag : path list -> bool -> ('a1, 'a2) state -> ('a1, 'a2) state
+
+val trace_log :
+  n list -> n list -> opts -> ('a1, 'a2) state -> n list -> n list * ('a1,
+  'a2) state
+
+val drag_command : opts -> ('a1, 'a2) state -> n list
+
+val out_step :
+  ('a1 -> n list -> (n list * 'a2 option) * 'a1) -> ('a2 -> bool) -> (n list
+  -> bool) -> (n list -> 'a3) -> ('a3 -> n list -> bool * 'a3) -> n list -> n
+  list -> opts -> ('a1, 'a3) state -> n list -> ('a1, 'a3) state * obs list
+
+val drag_verdict :
+  (n list -> dres) -> bool -> ('a1, 'a2) state -> n list -> ('a1, 'a2)
+  state * obs list
+
+val in_step :
+  ('a2 -> bool) -> ('a2 -> 'a2) -> (n list -> dres) -> (n list -> bool) ->
+  opts -> ('a1, 'a2) state -> n list -> ('a1, 'a2) state * obs list
+
+val hold_timer :
+  (n list -> dres) -> ('a1, 'a2) state -> ('a1, 'a2) state * obs list
+
+val remove_nth : nat -> 'a1 list -> 'a1 list
+
+val set_nth : nat -> 'a1 -> 'a1 list -> 'a1 list
+
+val drag_step : opts -> ('a1, 'a2) state -> nat -> ('a1, 'a2) state * obs list
+
+val handler_exit : ('a1, 'a2) state -> nat -> hphase -> ('a1, 'a2) state
+
+val handler_step :
+  ('a1, 'a2) state -> nat -> haction -> ('a1, 'a2) state * obs list
+
+type 'zstate event =
+| EvOut of chunk
+| EvIn of chunk
+| EvDetectOn
+| EvHoldTimer
+| EvDrag of nat
+| EvHandler of nat * haction
+| EvPromptEnd
+| EvZmodem of 'zstate
+
+val step :
+  ('a1 -> n list -> (n list * 'a2 option) * 'a1) -> ('a2 -> bool) -> (n list
+  -> bool) -> (n list -> 'a3) -> ('a3 -> n list -> bool * 'a3) -> ('a3 ->
+  bool) -> ('a3 -> 'a3) -> (n list -> dres) -> n list -> n list -> (n list ->
+  bool) -> opts -> ('a1, 'a3) state -> 'a3 event -> ('a1, 'a3) state * obs
+  list
+
+val run :
+  ('a1 -> n list -> (n list * 'a2 option) * 'a1) -> ('a2 -> bool) -> (n list
+  -> bool) -> (n list -> 'a3) -> ('a3 -> n list -> bool * 'a3) -> ('a3 ->
+  bool) -> ('a3 -> 'a3) -> (n list -> dres) -> n list -> n list -> (n list ->
+  bool) -> opts -> ('a1, 'a3) state -> 'a3 event list -> ('a1, 'a3)
+  state * obs list
+
+val silent_detect : unit -> n list -> (n list * unit option) * unit
+
+val corr_run :
+  (path -> kind option) -> (n list -> bool) -> n list -> n list -> opts ->
+  bool -> unit event list -> obs list
